@@ -2,6 +2,7 @@ package main
 
 import (
 	"fmt"
+	"time"
 	"regexp"
 	"strings"
 )
@@ -412,7 +413,23 @@ func monitor(o *outcome) []finding {
 				sum += x.I
 			}
 		}
-		if sum < graceUnits {
+		if c.RealClock {
+			// wall clock: the timer is created after the last runner returned, so the action must be at
+			// least one grace period later than that (and the director allowed it: a tick entry)
+			var tLast, tFatal int64
+			for _, x := range log {
+				if x.E == "r.ret" && x.T > tLast {
+					tLast = x.T
+				}
+				if x.E == "fatal" {
+					tFatal = x.T
+				}
+			}
+			if tFatal-tLast < int64(realGrace) {
+				bad("fatal-before-grace-real", "fatal shutdown fired %v after the last runner returned; the grace period is %v", time.Duration(tFatal-tLast), realGrace)
+			}
+		}
+		if sum < graceUnits && !c.RealClock {
 			bad("fatal-before-grace", "fatal shutdown fired after %d of %d clock units", sum, graceUnits)
 		}
 		if firstCStart == none && len(o.Accepted) > 0 {
@@ -422,7 +439,23 @@ func monitor(o *outcome) []finding {
 			bad("fatal-after-run", "fatal shutdown fired after Run had returned")
 		}
 	}
-	if c.Grace != "none" && c.Grace != "" {
+	if c.RealClock && c.Grace != "none" && c.Grace != "" && nFatal == 0 && !hung {
+		// wall clock: a closer that returned more than grace + slack after every closer had been seen
+		// running was still running when the timer expired ⇒ must have fired
+		var tTick int64 = -1
+		for _, x := range log {
+			if x.E == "tick" {
+				tTick = x.T
+				break
+			}
+		}
+		for _, x := range log {
+			if x.E == "c.ret" && tTick >= 0 && x.T > tTick+int64(realGrace)+int64(300*time.Millisecond) {
+				bad("fatal-missing-real", "closer %d returned %v after all closers were running (grace %v) but the fatal shutdown action never fired", x.I, time.Duration(x.T-tTick), realGrace)
+			}
+		}
+	}
+	if c.Grace != "none" && c.Grace != "" && !c.RealClock {
 		// expired with a closer still running ⇒ must fire
 		sum, armedFrom := 0, false
 		for _, x := range log {
